@@ -207,6 +207,43 @@ pub fn specs(tier: &str, _prop: &str) -> Vec<ExpSpec> {
     v.extend(garbage_specs(th));
     v.extend(fragmented_dir_specs(th));
     v.extend(full_dir_specs(th));
+    v.extend(dot_target_specs(th));
+    v
+}
+
+/// the dot entries of a directory as the target of remove / rename (they must be refused; the image stays valid)
+pub fn dot_target_specs(th: bool) -> Vec<ExpSpec> {
+    use harness::sess::DirRef;
+    let r = DirRef::Root;
+    let s = |x: &str| x.to_string();
+    let mut v = Vec::new();
+    for ft in [FatType::Fat12, FatType::Fat32] {
+        let mut c = vol::tiny_with(ft, 8, 16);
+        c.name = format!("{}-dots", c.name);
+        let prefix = vec![
+            Op::CreateDir { base: r, path: s("d"), keep: None },
+            Op::CreateDir { base: r, path: s("d/e"), keep: None },
+            Op::CreateFile { base: r, path: s("d/a"), keep: None },
+        ];
+        let mut alphabet = vec![
+            Op::Remove { base: r, path: s("d/e/.") },
+            Op::Remove { base: r, path: s("d/e/..") },
+            Op::Remove { base: r, path: s("d/.") },
+            Op::Rename { base: r, src: s("d/e/."), dst_base: r, dst: s("x") },
+            Op::Rename { base: r, src: s("d/e/.."), dst_base: r, dst: s("y") },
+            Op::Rename { base: r, src: s("d/."), dst_base: r, dst: s("d/e/z") },
+            Op::Remove { base: r, path: s("d/e") },
+            Op::Remove { base: r, path: s("d/a") },
+            Op::Remove { base: r, path: s("d") },
+            Op::CreateFile { base: r, path: s("d/e/b"), keep: None },
+            Op::List { base: r, path: s("d/e") },
+            Op::Remount,
+        ];
+        if th {
+            alphabet.push(Op::Rename { base: r, src: s("d/e"), dst_base: r, dst: s("e") });
+        }
+        v.push(ExpSpec::new(c, alphabet, if th { 4 } else { 3 }).with_prefix(prefix));
+    }
     v
 }
 
